@@ -45,7 +45,8 @@ CLOSERS = ['C', 'Y C', 'Y Y C']
 class Check(DiffCheck):
     id = 'C09'
     coq_dirs = ['Base', 'C09', 'C04', 'Sched']
-    coq_targets = ['C09/C09_Proofs.vo', 'C09/C09_E2.vo', 'C09/C09_E3.vo']
+    coq_targets = ['C09/C09_Proofs.vo', 'C09/C09_BufTimeProofs.vo', 'C09/C09_UnbufRelease.vo', 'C09/C09_Witness2.vo',
+                   'C09/C09_Release.vo', 'C09/C09_E2.vo', 'C09/C09_E3.vo']
     needs_libphoton = True
     properties_v = 'C09/C09_Properties.v'
     extract_v = 'C09/C09_Extract.v'
